@@ -205,7 +205,7 @@ def selftest(pid, wd, tpath):
 
 def run_check(pid, tier, seed, mc_cfgs, profiles, thorough_profiles, assumptions, mc_types=("static",),
               mc_actions=("MAdd", "MSendCS", "MSendRAA", "MDeliver"), mc_module="ChanMC", mutant_cfgs=(),
-              families=(), thorough_families=()):
+              families=(), thorough_families=(), mc_actions_by_module=None):
     t0 = time.time()
     wd = vlib.workdir(pid)
     bins = vlib.build(["channet"])
@@ -221,7 +221,7 @@ def run_check(pid, tier, seed, mc_cfgs, profiles, thorough_profiles, assumptions
         r = vlib.tlc_mc(pid, mod, cfg, workers=12, timeout=3000 if thorough else 900)
         if r["violated"]:
             raise vlib.ToolError("design model violates %s in %s (spec needs correction)" % (r["violated"], cfg))
-        vlib.require_coverage(r, list(mc_actions), cfg)
+        vlib.require_coverage(r, list((mc_actions_by_module or {}).get(mod, mc_actions)), cfg)
         got = vlib.tlc_printed(r["out"], "SCRIPT")
         vlib.log("[mc] %s: %d distinct states, %d generated, depth %d, %d scripts, %.0fs" %
                  (cfg, r["distinct"], r["states"], r["depth"], len(got), r["wall_s"]))
